@@ -5,6 +5,7 @@ package main
 // Everything here is listed in the evidence of each run (by name, when actually hit).
 
 import (
+	"math"
 	"fmt"
 	"go/token"
 	"go/types"
@@ -453,6 +454,51 @@ func (i *interpreter) registerIntrinsics() {
 		}
 		fr.i.call(fr, fr.callpos, args[1], nil)
 		return nil
+	}
+	// float kernels with assembly implementations on this architecture: host function, concrete only
+	for name, f := range map[string]func(float64) float64{
+		"math.archLog": math.Log, "math.archExp": math.Exp, "math.archFloor": math.Floor, "math.archCeil": math.Ceil,
+		"math.archTrunc": math.Trunc, "math.archSqrt": math.Sqrt, "math.sqrt": math.Sqrt, "math.Sqrt": math.Sqrt,
+		"math.Log": math.Log, "math.Floor": math.Floor, "math.Ceil": math.Ceil, "math.Trunc": math.Trunc, "math.Exp": math.Exp,
+	} {
+		f := f
+		nm := name
+		in[nm] = func(fr *frame, args []value) value {
+			x, ok := args[0].(float64)
+			if !ok {
+				abandon("%s of a symbolic value", nm)
+			}
+			return f(x)
+		}
+	}
+	// bit casts between floats and integers are unsafe pointer casts in the standard library
+	in["math.Float64bits"] = func(fr *frame, args []value) value {
+		f, ok := args[0].(float64)
+		if !ok {
+			abandon("math.Float64bits of a symbolic value")
+		}
+		return math.Float64bits(f)
+	}
+	in["math.Float64frombits"] = func(fr *frame, args []value) value {
+		u, ok := args[0].(uint64)
+		if !ok {
+			abandon("math.Float64frombits of a symbolic value")
+		}
+		return math.Float64frombits(u)
+	}
+	in["math.Float32bits"] = func(fr *frame, args []value) value {
+		f, ok := args[0].(float32)
+		if !ok {
+			abandon("math.Float32bits of a symbolic value")
+		}
+		return math.Float32bits(f)
+	}
+	in["math.Float32frombits"] = func(fr *frame, args []value) value {
+		u, ok := args[0].(uint32)
+		if !ok {
+			abandon("math.Float32frombits of a symbolic value")
+		}
+		return math.Float32frombits(u)
 	}
 	// sync.Pool without reuse: Get hands out New() (or nil), Put drops the value
 	in["(*sync.Pool).Put"] = noopNamed
